@@ -5,6 +5,7 @@ package main
 import (
 	"fmt"
 	"go/ast"
+	"go/constant"
 	"go/token"
 	"go/types"
 	"strings"
@@ -198,6 +199,7 @@ func runC20(c *Ctx) {
 	c20SetConstruction(c)
 	c20Encoded(c)
 	c20Extra(c)
+	c20ErrorFormatWired(c)
 }
 
 var c20ControllerNoAnnotations = map[string]string{
@@ -686,5 +688,180 @@ func c20Encoded(c *Ctx) {
 	}
 	if nFree < 2 {
 		c.Fail("ENCODED-OUTPUT", "github-actions/free-text-count", fr.Decl.Pos(), "only %d free-text writes found", nFree)
+	}
+	// which escaper where (round 2): a workflow command is `::error k=v,k=v::message`. Property values must also escape
+	// ':' and ',' (a path "a,line=1:b.proto" otherwise forges properties); the message must escape exactly '%', CR, LF
+	// (escaping ':' there prints "%3A" literally). The character sets are read from the strings.NewReplacer tables the
+	// helpers use; the position is decided by dominance of the "::" separator write.
+	escSet := func(fn *types.Func) map[string]bool {
+		d := p.DeclOf(fn)
+		if d == nil || d.Decl.Body == nil {
+			return nil
+		}
+		var table types.Object
+		ast.Inspect(d.Decl.Body, func(n ast.Node) bool {
+			if sel, ok := n.(*ast.SelectorExpr); ok && sel.Sel.Name == "Replace" {
+				if o := identObj(d.Info(), sel.X); o != nil {
+					table = o
+				}
+			}
+			return true
+		})
+		if table == nil {
+			return nil
+		}
+		set := map[string]bool{}
+		for _, f := range d.Pkg.Syntax {
+			ast.Inspect(f, func(n ast.Node) bool {
+				vs, ok := n.(*ast.ValueSpec)
+				if !ok {
+					return true
+				}
+				for i, nm := range vs.Names {
+					if d.Info().Defs[nm] != table || i >= len(vs.Values) {
+						continue
+					}
+					if call, ok := vs.Values[i].(*ast.CallExpr); ok && calleeIs(Callee(d.Info(), call), "strings", "NewReplacer") {
+						for k := 0; k+1 < len(call.Args); k += 2 {
+							if tv, ok := d.Info().Types[call.Args[k]]; ok && tv.Value != nil {
+								set[constant.StringVal(tv.Value)] = true
+							}
+						}
+					}
+				}
+				return true
+			})
+		}
+		return set
+	}
+	var sep ssa.Instruction
+	for _, call := range callsIn(sf) {
+		fn := staticCalleeObj(call.Call)
+		if fn != nil && fn.Name() == "WriteString" && namedPath(recvOf(fn)) == "bytes.Buffer" && isConstString(call.Call.Args[len(call.Call.Args)-1], "::") {
+			sep = call.Instr
+		}
+	}
+	if sep == nil {
+		c.Fail("ENCODED-OUTPUT", "github-actions/separator", fr.Decl.Pos(), "the \"::\" write separating properties from the message was not found")
+		return
+	}
+	k := 0
+	for _, call := range callsIn(sf) {
+		fn := staticCalleeObj(call.Call)
+		if fn == nil || !strings.HasPrefix(fn.Name(), "Write") || namedPath(recvOf(fn)) != "bytes.Buffer" {
+			continue
+		}
+		ac, ok := stripConv(call.Call.Args[len(call.Call.Args)-1]).(*ssa.Call)
+		if !ok || !isEscaper(&ac.Call) {
+			continue
+		}
+		set := escSet(staticCalleeObj(&ac.Call))
+		k++
+		inData := instrDominates(sep, call.Instr)
+		okSet := set != nil && set["%"] && set["\r"] && set["\n"]
+		where := "property value"
+		if inData {
+			where = "message"
+			okSet = okSet && !set[":"] && !set[","]
+		} else {
+			okSet = okSet && set[":"] && set[","]
+		}
+		c.Ob("ENCODED-OUTPUT", fmt.Sprintf("github-actions/escaper-for-position#%d", k), call.Pos(), okSet, true, "%s written through %s, which escapes %v: %v", where, staticCalleeObj(&ac.Call).Name(), sortedKeys(set), okSet)
+	}
+}
+
+// c20ErrorFormatWired (ERROR-FORMAT-WIRED, round 2): annotations found while a command *builds* its inputs (compile
+// errors) are printed by the controller, not by the command; the controller only knows the user's --error-format when
+// the command hands it over. Every command function that reads an ErrorFormat flag field and constructs a controller
+// must therefore pass bufctl.WithFileAnnotationErrorFormat(<value derived from that field>) to the constructor;
+// otherwise compile errors come out as text whatever the user asked for, while the command's own annotations honour it.
+func c20ErrorFormatWired(c *Ctx) {
+	const rule = "ERROR-FORMAT-WIRED"
+	c.Rule(rule, "commands with an --error-format flag hand it to the controller they construct", 5)
+	p := c.P
+	var pkgs []*packages.Package
+	for _, pk := range p.ModulePkgs() {
+		if strings.Contains(pk.PkgPath, "/private/buf/cmd/") {
+			pkgs = append(pkgs, pk)
+		}
+	}
+	isErrFmtField := func(v ssa.Value) bool {
+		found := false
+		sliceBack(v, func(x ssa.Value) bool {
+			if fa, ok := x.(*ssa.FieldAddr); ok {
+				if st, ok := fa.X.Type().Underlying().(*types.Pointer).Elem().Underlying().(*types.Struct); ok && st.Field(fa.Field).Name() == "ErrorFormat" {
+					found = true
+				}
+			}
+			return !found
+		})
+		return found
+	}
+	for _, sf := range p.SSAFuncsOf(pkgs) {
+		// does the function read an ErrorFormat field at all?
+		reads := false
+		for _, b := range sf.Blocks {
+			for _, ins := range b.Instrs {
+				if fa, ok := ins.(*ssa.FieldAddr); ok {
+					if st, ok := fa.X.Type().Underlying().(*types.Pointer).Elem().Underlying().(*types.Struct); ok && st.Field(fa.Field).Name() == "ErrorFormat" {
+						reads = true
+					}
+				}
+			}
+		}
+		hasFlagParam := false
+		for _, prm := range sf.Params {
+			if pt, ok := prm.Type().Underlying().(*types.Pointer); ok {
+				if st, ok := pt.Elem().Underlying().(*types.Struct); ok {
+					for i := 0; i < st.NumFields(); i++ {
+						if st.Field(i).Name() == "ErrorFormat" {
+							hasFlagParam = true
+						}
+					}
+				}
+			}
+		}
+		_ = hasFlagParam
+		if !reads {
+			continue // a bound but unread (deprecated) flag: nothing to hand over
+		}
+		for _, call := range callsIn(sf) {
+			if !calleeIs(staticCalleeObj(call.Call), "private/buf/bufcli", "NewController") {
+				continue
+			}
+			// a controller that is only asked to write (Put*) never prints annotations
+			writeOnly := true
+			if cv, ok := call.Value.(*ssa.Call); ok {
+				for _, ref := range *cv.Referrers() {
+					ex, ok := ref.(*ssa.Extract)
+					if !ok || ex.Index != 0 {
+						continue
+					}
+					for _, use := range *ex.Referrers() {
+						uc, ok := use.(ssa.CallInstruction)
+						if ok && uc.Common().IsInvoke() && uc.Common().Value == ssa.Value(ex) && strings.HasPrefix(uc.Common().Method.Name(), "Put") {
+							continue
+						}
+						if _, isDbg := use.(*ssa.DebugRef); isDbg {
+							continue
+						}
+						writeOnly = false
+					}
+				}
+			}
+			if writeOnly {
+				c.Ob(rule, ssaFuncName(sf), call.Pos(), true, false, "the controller is only used to write (Put*): it prints no annotations")
+				continue
+			}
+			wired := false
+			for _, a := range call.Call.Args {
+				for _, el := range append(variadicElems(a), a) {
+					if oc, ok := stripConv(el).(*ssa.Call); ok && calleeIs(staticCalleeObj(&oc.Call), "private/buf/bufctl", "WithFileAnnotationErrorFormat") && len(oc.Call.Args) == 1 && isErrFmtField(oc.Call.Args[0]) {
+						wired = true
+					}
+				}
+			}
+			c.Ob(rule, ssaFuncName(sf), call.Pos(), wired, true, "the controller is constructed with WithFileAnnotationErrorFormat(<the ErrorFormat flag>): %v", wired)
+		}
 	}
 }
